@@ -82,7 +82,10 @@ Inductive aoperand : Type :=
 | AAutoDec (r : expr) | AAutoDecDef (r : expr)
 | AIndex (x r : expr) | AIndexDef (x r : expr)
 | AImm (v : expr) | AAbs (a : expr) | ARel (t : expr) | ARelDef (t : expr)
-| AAcc (n : Z).
+| AAcc (n : Z).   (* the token acN CLASSIFIED as an accumulator: written where the instruction expects a floating
+                     operand or an accumulator (Spec.PDP11.token_acc, classes CFpRM / CAcc; there it shadows a symbol of
+                     that name).  In every other position the token is the ordinary symbol acN, i.e. ARel (Sym "acN"):
+                     tools/ast2coq.py decides by the stub class of the operand position, as insns.py does. *)
 
 Inductive achunk : Type := CStr (s : list N) | CCode (e : expr).
 
@@ -231,7 +234,7 @@ Fixpoint collect_exports (f : nat) (p : list stmt) : list (string * nat) * list 
 Fixpoint file_ids_stmt (s : stmt) : list nat :=
   match s with
   | Include fid body => fid :: (fix go (l : list stmt) : list nat :=
-                                  match l with [] => [] | x :: r => file_ids_stmt x ++ go r end) body
+                                  match l with [] => [] | End :: _ => [] | x :: r => file_ids_stmt x ++ go r end) body
   | Repeat _ body => (fix go (l : list stmt) : list nat :=
                         match l with [] => [] | x :: r => file_ids_stmt x ++ go r end) body
   | _ => []
@@ -256,11 +259,9 @@ Fixpoint find_def (f : nat) (s : string) (l : list defn) : option defn :=
   | d :: r => if Nat.eqb f (d_file d) && String.eqb s (d_name d) then Some d else find_def f s r
   end.
 
-Fixpoint remove_def (f : nat) (s : string) (l : list defn) : list defn :=
-  match l with
-  | [] => []
-  | d :: r => if Nat.eqb f (d_file d) && String.eqb s (d_name d) then r else d :: remove_def f s r
-  end.
+(* the definitions being evaluated right now (Awaiting) *)
+Definition vmem (f : nat) (s : string) (vis : list (nat * string)) : bool :=
+  existsb (fun p => Nat.eqb f (fst p) && String.eqb s (snd p)) vis.
 
 (* the first statement of the top level that can fix the link base *)
 Fixpoint first_base (p : list stmt) : option expr :=
@@ -286,7 +287,6 @@ Record lstate : Type := mkL {
   l_scope : nat;                    (* current local-label scope of that file's top level *)
   l_labels : symtab;                (* labels laid out so far *)
   l_ddots : symtab;                 (* address of every definition statement laid out so far *)
-  l_items : list item;              (* placed statements, most recent first *)
   l_based : bool;                   (* the link base has been fixed by a statement already *)
   l_inc : bool                      (* inside an included file (its link base is its own, still unknown) *)
 }.
@@ -301,7 +301,7 @@ Definition cenc (c : N) : option (list N) :=
 
 (* ------------------------------------------------------------------------------------------ *)
 (* demand-driven evaluation: labels known so far, definitions unfolded on demand.
-   [rem]: the definitions not being evaluated right now (Awaiting); [fuel] >= length rem suffices. *)
+   [vis]: the definitions being evaluated right now (Awaiting); fuel > number of definitions suffices. *)
 Section Eval.
 Variable alldefs : list defn.
 Variable allkeys : list key.
@@ -309,24 +309,21 @@ Variable exports : list (string * nat).
 Variable labels : symtab.
 Variable ddots : symtab.
 
-Fixpoint xeval (fuel : nat) (rem : list defn) (c : ctx) (dot : option Z) (e : expr) {struct fuel} : xres Z :=
+Fixpoint xeval (fuel : nat) (vis : list (nat * string)) (c : ctx) (dot : option Z) (e : expr) {struct fuel} : xres Z :=
   (fix go (e : expr) : xres Z :=
      match e with
      | Lit l => lift (lit_value cenc l)
      | Sym s =>
          (* the value of a definition of file f *)
          let unfold_def (f : nat) (k : xres Z) : xres Z :=
-           match find_def f s rem with
+           match find_def f s alldefs with
            | Some d =>
-               match fuel with
-               | O => XOutOfFuel
-               | S fl => xeval fl (remove_def f s rem) (f, Some (d_scope d)) (klookup (KGlobal f s) ddots) (d_expr d)
-               end
-           | None =>
-               match find_def f s alldefs with
-               | Some _ => XErr ["recursive-definition"]
-               | None => k
-               end
+               if vmem f s vis then XErr ["recursive-definition"]
+               else match fuel with
+                    | O => XOutOfFuel
+                    | S fl => xeval fl ((f, s) :: vis) (f, Some (d_scope d)) (klookup (KGlobal f s) ddots) (d_expr d)
+                    end
+           | None => k
            end in
          match own_of labels c s with
          | Some v => XOk v
@@ -470,17 +467,20 @@ Variable exports : list (string * nat).
 Variable fuel : nat.
 
 Definition lev (st : lstate) (sc : ctx) (e : expr) : xres Z :=
-  xeval alldefs allkeys exports (l_labels st) (l_ddots st) fuel alldefs sc (Some (l_addr st)) e.
+  xeval alldefs allkeys exports (l_labels st) (l_ddots st) fuel [] sc (Some (l_addr st)) e.
 
-Definition put (st : lstate) (sc : ctx) (s : stmt) (sz : Z) : lstate :=
-  mkL (l_addr st + sz) (l_file st) (l_scope st) (l_labels st) (l_ddots st)
-      (mkItem (l_addr st) sc s sz :: l_items st) (l_based st) (l_inc st).
+(* a layout step: the new state and the statements it placed, in order *)
+Definition lres : Type := xres (lstate * list item).
+
+Definition put (st : lstate) (sc : ctx) (s : stmt) (sz : Z) : lstate * list item :=
+  (mkL (l_addr st + sz) (l_file st) (l_scope st) (l_labels st) (l_ddots st) (l_based st) (l_inc st),
+   [mkItem (l_addr st) sc s sz]).
 
 Definition kmem (k : key) (t : symtab) : bool := existsb (fun p => key_eqb k (fst p)) t.
 
-Definition no_def_here : xres lstate := XErr ["unexpected-symbol-definition"].
+Definition no_def_here : lres := XErr ["unexpected-symbol-definition"].
 
-Definition lay_leaf (inrep : bool) (s : stmt) (st : lstate) : xres lstate :=
+Definition lay_leaf (inrep : bool) (s : stmt) (st : lstate) : lres :=
   let f := l_file st in
   let sc : ctx := (f, if inrep then None else Some (l_scope st)) in
   let a := l_addr st in
@@ -488,29 +488,29 @@ Definition lay_leaf (inrep : bool) (s : stmt) (st : lstate) : xres lstate :=
   | Label n =>
       if inrep then no_def_here
       else if kmem (KGlobal f n) (l_labels st) || kmem (KGlobal f n) (l_ddots st) then XErr ["duplicate-symbol"]
-      else XOk (mkL a f (S (l_scope st)) ((KGlobal f n, a) :: l_labels st) (l_ddots st)
-                    (mkItem a sc s 0 :: l_items st) (l_based st) (l_inc st))
+      else XOk (mkL a f (S (l_scope st)) ((KGlobal f n, a) :: l_labels st) (l_ddots st) (l_based st) (l_inc st),
+                [mkItem a sc s 0])
   | LocalLabel n =>
       if inrep then no_def_here
       else if kmem (KLocal f (l_scope st) n) (l_labels st) then XErr ["duplicate-symbol"]
-      else XOk (mkL a f (l_scope st) ((KLocal f (l_scope st) n, a) :: l_labels st) (l_ddots st)
-                    (mkItem a sc s 0 :: l_items st) (l_based st) (l_inc st))
+      else XOk (mkL a f (l_scope st) ((KLocal f (l_scope st) n, a) :: l_labels st) (l_ddots st) (l_based st) (l_inc st),
+                [mkItem a sc s 0])
   | Assign n e =>
       if inrep then no_def_here
       else if kmem (KGlobal f n) (l_labels st) || kmem (KGlobal f n) (l_ddots st) then XErr ["duplicate-symbol"]
-      else XOk (mkL a f (l_scope st) (l_labels st) ((KGlobal f n, a) :: l_ddots st)
-                    (mkItem a sc s 0 :: l_items st) (l_based st) (l_inc st))
+      else XOk (mkL a f (l_scope st) (l_labels st) ((KGlobal f n, a) :: l_ddots st) (l_based st) (l_inc st),
+                [mkItem a sc s 0])
   | Link e =>
       if inrep then XUnsup "link-inside-repeat"
       else if l_inc st then XUnsup "own-base-in-include"
       else if l_based st then XErr ["address-conflict"]
-      else XOk (mkL a f (l_scope st) (l_labels st) (l_ddots st) (mkItem a sc s 0 :: l_items st) true (l_inc st))
+      else XOk (mkL a f (l_scope st) (l_labels st) (l_ddots st) true (l_inc st), [mkItem a sc s 0])
   | Skip e =>
       if l_inc st then XUnsup "own-base-in-include"
       else if l_based st then
         xdo bs <- emit_leaf (lev st sc) a s; XOk (put st sc s (zlen bs))
       else if inrep then XUnsup "base-set-inside-repeat"
-      else XOk (mkL a f (l_scope st) (l_labels st) (l_ddots st) (mkItem a sc (Link e) 0 :: l_items st) true (l_inc st))
+      else XOk (mkL a f (l_scope st) (l_labels st) (l_ddots st) true (l_inc st), [mkItem a sc (Link e) 0])
   | Repeat _ _ => XUnsup "internal: repeat as leaf"
   | Include _ _ => XUnsup "internal: include as leaf"
   | End => XUnsup "end-inside-block"
@@ -522,13 +522,13 @@ Definition lay_leaf (inrep : bool) (s : stmt) (st : lstate) : xres lstate :=
       end
   end.
 
-Fixpoint iter_x (n : nat) (f : lstate -> xres lstate) (st : lstate) : xres lstate :=
+Fixpoint iter_x (n : nat) (f : lstate -> lres) (st : lstate) : lres :=
   match n with
-  | O => XOk st
-  | S k => xdo st' <- f st; iter_x k f st'
+  | O => XOk (st, [])
+  | S k => xdo r <- f st; xdo r' <- iter_x k f (fst r); XOk (fst r', snd r ++ snd r')
   end.
 
-Fixpoint lay_stmt (inrep : bool) (s : stmt) (st : lstate) {struct s} : xres lstate :=
+Fixpoint lay_stmt (inrep : bool) (s : stmt) (st : lstate) {struct s} : lres :=
   match s with
   | Repeat ce body =>
       let sc : ctx := (l_file st, if inrep then None else Some (l_scope st)) in
@@ -537,31 +537,32 @@ Fixpoint lay_stmt (inrep : bool) (s : stmt) (st : lstate) {struct s} : xres lsta
       xdo n' <- lift (get_as_int None true None n);
       iter_x (Z.to_nat n')
         (fun st0 =>
-           (fix lay_body (l : list stmt) (st1 : lstate) : xres lstate :=
+           (fix lay_body (l : list stmt) (st1 : lstate) : lres :=
               match l with
-              | [] => XOk st1
-              | x :: r => xdo st2 <- lay_stmt true x st1; lay_body r st2
+              | [] => XOk (st1, [])
+              | x :: r => xdo a <- lay_stmt true x st1; xdo b <- lay_body r (fst a); XOk (fst b, snd a ++ snd b)
               end) body st0) st
   | Include fid body =>
       if inrep then XUnsup "include-inside-repeat"
       else
         (* compile_include: the file's own names (fid), its own local scopes, its own (unknown) link base;
            it stops at its .end; afterwards the including file goes on where it was *)
-        xdo st' <- (fix lay_file (l : list stmt) (st1 : lstate) : xres lstate :=
-                      match l with
-                      | [] => XOk st1
-                      | End :: _ => XOk st1
-                      | x :: r => xdo st2 <- lay_stmt false x st1; lay_file r st2
-                      end) body
-                   (mkL (l_addr st) fid 0 (l_labels st) (l_ddots st) (l_items st) (l_based st) true);
-        XOk (mkL (l_addr st') (l_file st) (l_scope st) (l_labels st') (l_ddots st') (l_items st') (l_based st') (l_inc st))
+        xdo r <- (fix lay_file (l : list stmt) (st1 : lstate) : lres :=
+                    match l with
+                    | [] => XOk (st1, [])
+                    | End :: _ => XOk (st1, [])
+                    | x :: r => xdo a <- lay_stmt false x st1; xdo b <- lay_file r (fst a); XOk (fst b, snd a ++ snd b)
+                    end) body
+                 (mkL (l_addr st) fid 0 (l_labels st) (l_ddots st) (l_based st) true);
+        let st' := fst r in
+        XOk (mkL (l_addr st') (l_file st) (l_scope st) (l_labels st') (l_ddots st') (l_based st') (l_inc st), snd r)
   | _ => lay_leaf inrep s st
   end.
 
-Fixpoint lay_list (inrep : bool) (l : list stmt) (st : lstate) : xres lstate :=
+Fixpoint lay_list (inrep : bool) (l : list stmt) (st : lstate) : lres :=
   match l with
-  | [] => XOk st
-  | x :: r => xdo st' <- lay_stmt inrep x st; lay_list inrep r st'
+  | [] => XOk (st, [])
+  | x :: r => xdo a <- lay_stmt inrep x st; xdo b <- lay_list inrep r (fst a); XOk (fst b, snd a ++ snd b)
   end.
 
 (* the link base: constants only *)
@@ -569,14 +570,14 @@ Definition find_base (q : list stmt) : xres Z :=
   match first_base q with
   | None => XOk default_base
   | Some e =>
-      xdo v <- xeval alldefs allkeys exports [] [] fuel alldefs (0%nat, None) None e;
+      xdo v <- xeval alldefs allkeys exports [] [] fuel [] (0%nat, None) None e;
       lift (get_as_int (Some 16) false None v)
   end.
 
 (* values of the definitions once everything is laid out *)
 Definition def_values (labels : symtab) (ddots : symtab) : xres symtab :=
   xmapM (fun d =>
-           xdo v <- xeval alldefs allkeys exports labels ddots fuel (remove_def (d_file d) (d_name d) alldefs)
+           xdo v <- xeval alldefs allkeys exports labels ddots fuel [(d_file d, d_name d)]
                           (d_file d, Some (d_scope d)) (klookup (KGlobal (d_file d) (d_name d)) ddots) (d_expr d);
            XOk (KGlobal (d_file d) (d_name d), v)) alldefs.
 End Layout.
@@ -600,8 +601,9 @@ Definition assemble_full (p : program) : xres full :=
   else if negb (nodup_str (map fst exports)) then XErr ["duplicate-symbol"]
   else
   xdo base <- find_base alldefs allkeys exports fuel q;
-  xdo st <- lay_list alldefs allkeys exports fuel false q (mkL base 0 0 [] [] [] false false);
-  let items := rev (l_items st) in
+  xdo r <- lay_list alldefs allkeys exports fuel false q (mkL base 0 0 [] [] false false);
+  let st := fst r in
+  let items := snd r in
   xdo dv <- def_values alldefs allkeys exports fuel (l_labels st) (l_ddots st);
   let T := l_labels st ++ dv in
   xdo chunks <- xmapM (emit_item exports T) items;
